@@ -14,6 +14,7 @@ pub mod c12;
 pub mod c14;
 pub mod c17;
 pub mod c18;
+pub mod c19;
 pub mod c20;
 
 pub fn dispatch(prop: &str, run: Run) -> Option<i32> {
@@ -33,6 +34,7 @@ pub fn dispatch(prop: &str, run: Run) -> Option<i32> {
         "C14" => c14::run(run),
         "C17" => c17::run(run),
         "C18" => c18::run(run),
+        "C19" => c19::run(run),
         "C20" => c20::run(run),
         "C20-worker" => c20::worker(&std::env::args().nth(2).unwrap_or_default()),
         _ => return None,
